@@ -1,6 +1,7 @@
 (* C05 — shape of the generated cases and the two executable verdicts. No proofs. *)
 From VLib Require Import CaseLib.
-From C05 Require Import Model.
+From Coq Require Import ZArith.
+From C05 Require Import Model ModelAgg ModelDocs.
 (* gen-* cases (validation of the translator go2coq): required, not imported (GoSem has its own OutOfFuel) *)
 From VLib Require GoSem.
 From C05 Require GenCase.
@@ -55,6 +56,32 @@ Fixpoint keys_sorted (o : order) (l : list N) : bool :=
   | x :: r => match r with [] => true | y :: _ => key_le o x y && keys_sorted o r end
   end.
 
+(* field aggregations (ModelAgg) *)
+Definition sc_eqb (a b : sc) : bool :=
+  (sc_total a =? sc_total b)%N && (sc_ne a =? sc_ne b)%N && (sc_sum a =? sc_sum b)%Z
+  && (sc_min a =? sc_min b)%Z && (sc_max a =? sc_max b)%Z.
+Definition bins_eqb : bins -> bins -> bool :=
+  list_eqb (fun a b => (fst a =? fst b)%N && sc_eqb (snd a) (snd b)).
+Definition fagg_eqb (a b : fagg) : bool := bins_eqb (fa_bins a) (fa_bins b) && (fa_ne a =? fa_ne b)%N.
+Definition resf_eqb (a : res fagg) (b : fagg) : bool :=
+  match a with Ok x => fagg_eqb x b | OutOfFuel => false end.
+(* the implementation's aggregation state against the direct computation from the hit documents hs:
+   every bin it reports and the bin of every group that occurs among the hits (C05_field_aggs_direct) *)
+Definition direct_ok (hs : list adoc) (impl : fagg) : bool :=
+  forallb (fun k => option_eqb sc_eqb (bins_find k (fa_bins impl)) (direct_bin k hs))
+          (map fst (fa_bins impl) ++ map (fun d => d_grp (a_doc d)) hs)
+  && (fa_ne impl =? direct_ne hs)%N.
+
+(* documents of a page (ModelDocs) *)
+Definition host_layout (h : host) : list frac := map (fun f => map s_doc (nf_docs f)) (h_fracs h).
+Definition answering (shards : list (list host)) (idxs : list (list nat)) : list (list frac) :=
+  concat (map (fun hi => match search_shard (fst hi) (snd hi) 0 with
+                         | Some (h, _) => [host_layout h]
+                         | None => []
+                         end) (combine shards idxs)).
+Definition first_replicas (shards : list (list host)) : list (list frac) :=
+  map (fun hosts => match hosts with h :: _ => host_layout h | [] => [] end) shards.
+
 Inductive case :=
 (* seq.MergeQPRs(dst, qs, limit, interval, order) on arbitrary QPRs *)
 | CMerge (dst : qpr) (qs : list qpr) (limit : nat) (interval : N) (o : order) (impl : qpr)
@@ -72,7 +99,19 @@ Inductive case :=
          (impl : qpr)
 (* gen-<func>: the REAL Go function number fn (GenCase.gen_eval) was called on args and returned impl (or
    panicked); the model side is the definition GENERATED from the Go source by go2coq (Gen.v) *)
-| CGen (fn : N) (args : list (list Z)) (impl : GoSem.gres).
+| CGen (fn : N) (args : list (list Z)) (impl : GoSem.gres)
+(* Searcher.SearchDocs with ONE aggregation with Field and GroupBy (sum/min/max/avg) over real fractions:
+   impl = the mergeable state qpr.Aggs[0]; perm as in CSearch; single = the same request against ONE
+   real fraction holding every document *)
+| CAggSearch (layout : list afrac) (p : params) (fpi : nat) (perm : list nat) (impl : fagg) (single : option fagg)
+(* Ingestor.Search with the same aggregation over shards x replicas *)
+| CAggProxy (shards : list (list (list afrac))) (chosen : list nat) (p : params) (fpi : nat) (impl : fagg)
+(* Ingestor.Search with ShouldFetch over shards x replicas, ShuffleReplicas on or off: idxs = for every
+   shard the replicas in the order searchShard asked them (up to the one that answered); impl = the page:
+   every listed ID with the host (source) and fraction (hint) it is attributed to, and the document the docs
+   stream delivered for it (None = empty) *)
+| CProxyDocs (shards : list (list host)) (idxs : list (list nat)) (p : params) (offset size fpi : nat)
+             (impl : list (ids * option N)).
 
 Definition chosen_layouts (shards : list (list (list frac))) (chosen : list nat) : list (list frac) :=
   map (fun sc => nth (snd sc) (fst sc) []) (combine shards chosen).
@@ -93,6 +132,16 @@ Definition case_agrees (c : case) : bool :=
       && list_eqb N.eqb (map (fkey (p_order p)) (select perm layout))
                         (map (fkey (p_order p)) (prepare p layout))
       && resq_eqb (search_docs p fpi (select perm layout)) impl
+  | CAggSearch layout p fpi perm impl _ => resf_eqb (search_fagg p fpi (select perm layout)) impl
+  | CAggProxy shards chosen p fpi impl =>
+      resf_eqb (proxy_fagg p fpi (map (fun sc => nth (snd sc) (fst sc) []) (combine shards chosen))) impl
+  | CProxyDocs shards idxs p offset size fpi impl =>
+      match proxy_search p offset size fpi (map (prepare (with_limit p (offset + size))) (answering shards idxs)) with
+      | Ok m => idl_eqb (q_ids m) (map (fun e => is_id (fst e)) impl)
+      | OutOfFuel => false
+      end
+      && forallb (fun e => answered_b (fun _ j => j) p shards idxs (fst e)
+                           && option_eqb N.eqb (fetch_one (concat shards) (fst e)) (snd e)) impl
   | CProxy shards chosen p offset size fpi impl =>
       let ls := chosen_layouts shards chosen in
       match proxy_search p offset size fpi (map (prepare (with_limit p (offset + size))) ls) with
@@ -147,6 +196,21 @@ Definition case_spec_ok (c : case) : bool :=
                      && (negb (nodup_ids (layout_ids layout)) || sums_eqb impl s)
          | None => true
          end
+  | CAggSearch layout p _ _ impl single =>
+      direct_ok (ahits p (concat layout)) impl
+      && match single with Some s => fagg_eqb impl s | None => true end
+  | CAggProxy shards chosen p _ impl =>
+      direct_ok (ahits p (concat (concat (map (fun sc => nth (snd sc) (fst sc) []) (combine shards chosen))))) impl
+  | CProxyDocs shards _ p offset size _ impl =>
+      (* whichever replica answered: the page is cut from the one global list of ANY replica choice (here the
+         first replica of every shard), and every listed ID comes with its stored document *)
+      let ids := map (fun e => is_id (fst e)) impl in
+      idl_eqb ids (firstn size (skipn offset (global_order p (concat (first_replicas shards)))))
+      && strictly_ordered (p_order p) ids
+      && forallb (fun e => match snd e with
+                           | Some b => option_eqb N.eqb (Some b) (stored_body (concat shards) (is_id (fst e)))
+                           | None => false
+                           end) impl
   | CProxy shards chosen p offset size _ impl =>
       let ls := concat (chosen_layouts shards chosen) in
       let pl := with_limit p (offset + size) in
